@@ -21,17 +21,24 @@ REQUIRED_THEOREMS = [
     'C05_forms_agree', 'C05_forms_agree_pooled', 'C05_forms_agree_hetero', 'C05_forms_lengths',
     'C05_composed_reduced_eq', 'C05_composed_lengths',
     'C05_gauss_reduce_is_gradient', 'C05_logn_reduce_is_gradient', 'C05_trunc_reduce_is_gradient',
-    'C05_gaussNC_reduce_is_gradient', 'C05_lognNC_reduce_is_gradient']
+    'C05_gaussNC_reduce_is_gradient', 'C05_lognNC_reduce_is_gradient',
+    'C05_delta_layout_invariant', 'C05_covariate_part_is_logpdf',
+    'C05_gauss_dvartheta_contract', 'C05_logn_dvartheta_contract', 'C05_trunc_dvartheta_contract',
+    'C05_gaussNC_dvartheta_contract', 'C05_lognNC_dvartheta_contract',
+    'C05_pooled_pointwise', 'C05_obs_1d']
 RULE = ('every elementary class (Gaussian / log-normal centred and non-centred, truncated Gaussian, pooled, '
         'heterogeneous) with n_dim 1-4, n_ids 1-6, the same parameter values as flat vector, '
         '(n_param_per_dim, n_dim) matrix and (n_ids, n_param_per_dim, n_dim) tensor (plus genuinely '
         'per-individual tensors), with / without dlogp_dpsi, return forms separate / flattened / reduce, '
         'values inside the support and on sigma = 0, sigma < 0, psi <= 0, mismatching point masses; inputs of '
         'undocumented shapes (reshape / index / broadcast errors, the transposed matrix); random '
-        'compositions of 1-4 sub-models; non-trivial = n_dim >= 2 and n_ids >= 2; distinct = distinct '
+        'compositions of 1-7 sub-models, bare or covariate-wrapped (1-2 covariates, full or partial '
+        'selections); compute_pointwise_ll; 1-D observations for one-dimensional models; a dedicated '
+        'stream for every guard class and for the extreme n_dim / n_ids; non-trivial = n_dim >= 2 and n_ids >= 2; distinct = distinct '
         '(class, n_dim, n_ids, guard class, upstream supplied)')
 ASSUMPTIONS = [
-    'covariate population models inside compositions are out of scope here (C07 / C02)',
+    'covariate-wrapped sub-models use the linear covariate transform of C07 (Covariate.lean: covTh, covSens); '
+    'ReducedPopulationModel inside compositions is C08',
     'finite differences of chi\'s own value and scipy.stats densities are used only to exhibit a failing '
     'input; the claims are the Lean theorems',
     'erf: the executable model uses a series for Float, the theorems Mathlib\'s normal cdf',
@@ -44,7 +51,7 @@ HIER = {'Gc', 'Gn', 'Lc', 'Ln', 'T'}
 # call sites whose legacy behaviour differs from the intended one (known findings): the model carries
 # both variants and the harness accepts either, reporting which one chi matches
 VARIANT_SITES = {('matrix', 'Gn', 'indiv'), ('matrix', 'Ln', 'indiv'), ('matrix', 'Lc', 'sens'),
-                 ('matrix', 'Ln', 'sens'), ('tensor', 'H', 'll'), ('tensor', 'H', 'sens')}
+                 ('matrix', 'Ln', 'sens')}
 
 
 def spec(ctx, tag, ok, inp, detail=None):
@@ -144,7 +151,7 @@ def documented_psi(code, TH, eta):
 # ----------------------------------------------------------------------------------------
 # generators
 # ----------------------------------------------------------------------------------------
-def gen_elementary(rng, code=None, n_dim=None, n_ids=None):
+def gen_elementary(rng, code=None, n_dim=None, n_ids=None, force=None):
     code = code or KCODES[int(rng.integers(len(KCODES)))]
     n_dim = int(rng.choice([1, 1, 2, 2, 2, 3, 3, 4])) if n_dim is None else n_dim
     n_ids = int(rng.choice([1, 2, 2, 3, 3, 4, 5, 6])) if n_ids is None else n_ids
@@ -164,6 +171,8 @@ def gen_elementary(rng, code=None, n_dim=None, n_ids=None):
         else:
             obs = rng.normal(size=(n_ids, n_dim))
         r = rng.random()
+        if force is not None:
+            r = {'sigma=0': 0.0, 'sigma<0': 0.07, 'psi<=0': 0.13}.get(force, 1.0)
         if r < 0.06:
             TH[1, int(rng.integers(n_dim))] = 0.0
             guard = 'sigma=0'
@@ -176,13 +185,13 @@ def gen_elementary(rng, code=None, n_dim=None, n_ids=None):
     elif code == 'P':
         TH = rng.uniform(0.2, 3.0, (1, n_dim))
         obs = np.broadcast_to(TH, (n_ids, n_dim)).copy()
-        if rng.random() < 0.2:
+        if force == 'mismatch' or (force is None and rng.random() < 0.2):
             obs[int(rng.integers(n_ids)), int(rng.integers(n_dim))] += 0.5
             guard = 'mismatch'
     else:
         TH = rng.uniform(0.2, 3.0, (n_ids, n_dim))
         obs = TH.copy()
-        if rng.random() < 0.2:
+        if force == 'mismatch' or (force is None and rng.random() < 0.2):
             obs[int(rng.integers(n_ids)), int(rng.integers(n_dim))] += 0.5
             guard = 'mismatch'
     up = rng.normal(size=(n_ids, n_dim)) if rng.random() < 0.6 else None
@@ -193,8 +202,8 @@ def gen_elementary(rng, code=None, n_dim=None, n_ids=None):
 def gen_tensor(rng):
     """genuinely per-individual parameters (what a covariate model hands over)"""
     code = ['Gc', 'Gn', 'Lc', 'Ln', 'T'][int(rng.integers(5))]
-    n_dim = int(rng.integers(1, 4))
-    n_ids = int(rng.integers(1, 5))
+    n_dim = int(rng.integers(1, 5))
+    n_ids = int(rng.integers(1, 7))
     mu = rng.uniform(-0.3, 1.5, (n_ids, n_dim))
     sg = rng.uniform(0.3, 1.5, (n_ids, n_dim))
     if code == 'Gc':
@@ -210,22 +219,102 @@ def gen_tensor(rng):
     return {'kind': code, 'n_dim': n_dim, 'n_ids': n_ids, 'tensor': T, 'obs': obs, 'up': up}
 
 
-def gen_composed(rng):
-    n_sub = int(rng.integers(1, 5))
+def norm_sub(sub):
+    """[kind, n_dim] | [kind, n_dim, n_cov, sel] -> (kind, n_dim, n_cov, sel as sorted pairs)"""
+    kind, nd = str(sub[0]), int(sub[1])
+    n_cov = int(sub[2]) if len(sub) > 2 else 0
+    sel = sorted({(int(a), int(b)) for a, b in sub[3]}) if len(sub) > 3 else []
+    return kind, nd, n_cov, [list(x) for x in sel]
+
+
+def wire_sub(sub):
+    kind, nd, n_cov, sel = norm_sub(sub)
+    return [kind, nd] if n_cov == 0 else [kind, nd, n_cov, sel]
+
+
+def make_sub(chi, sub, n_ids):
+    kind, nd, n_cov, sel = norm_sub(sub)
+    m = make_model(chi, kind, nd, n_ids)
+    if n_cov == 0:
+        return m
+    cm = chi.CovariatePopulationModel(m, chi.LinearCovariateModel(n_cov=n_cov))
+    cm.set_n_ids(n_ids)
+    cm.set_population_parameters(sel)
+    return cm
+
+
+def vartheta(sub, n_ids, flat, cov):
+    """per-individual parameters (n_ids, n_per, n_dim) a covariate-wrapped sub-model sees"""
+    kind, nd, n_cov, sel = norm_sub(sub)
+    n_per = per_dim(kind, n_ids)
+    base = np.asarray(flat[:n_per * nd], float).reshape(n_per, nd)
+    beta = np.asarray(flat[n_per * nd:], float).reshape(len(sel), n_cov)
+    th = np.broadcast_to(base, (n_ids, n_per, nd)).copy()
+    for s_, (p_, d_) in enumerate(sel):
+        th[:, p_, d_] += cov @ beta[s_]
+    return th
+
+
+def gen_composed(rng, n_sub=None, with_cov=None):
+    n_sub = int(rng.integers(1, 5)) if n_sub is None else n_sub
     n_ids = int(rng.integers(1, 6))
-    subs, params, cols, upc = [], [], [], []
+    with_cov = (rng.random() < 0.5) if with_cov is None else with_cov
+    subs, params, cols, covs = [], [], [], []
     guard = 'inside'
     for _ in range(n_sub):
-        c = gen_elementary(rng, KCODES[int(rng.integers(len(KCODES)))], int(rng.integers(1, 4)), n_ids)
-        if c['guard'] != 'inside':
-            guard = 'guard'
-        subs.append([c['kind'], c['n_dim']])
-        params.append(np.asarray(c['theta']).flatten())
-        cols.append(c['obs'])
+        kind = KCODES[int(rng.integers(len(KCODES)))]
+        nd = int(rng.integers(1, 4))
+        if with_cov and rng.random() < 0.6:
+            # covariate-wrapped: dyadic numbers, so that the point-mass comparisons are exact in
+            # every order of summation
+            n_cov = int(rng.integers(1, 3))
+            n_per = per_dim(kind, n_ids)
+            allp = [(p_, d_) for p_ in range(n_per) for d_ in range(nd)]
+            if rng.random() < 0.5:
+                sel = allp
+            else:
+                kk = int(rng.integers(1, len(allp) + 1))
+                sel = [allp[j] for j in sorted(rng.choice(len(allp), size=kk, replace=False))]
+            sub = [kind, nd, n_cov, [list(x) for x in sel]]
+            cov = rng.integers(-2, 3, size=(n_ids, n_cov)) / 2.0
+            beta = rng.integers(-1, 2, size=(len(sel), n_cov)) / 16.0
+            if kind in HIER:
+                base = np.vstack([rng.integers(-4, 17, nd) / 8.0, rng.integers(4, 13, nd) / 8.0])
+            else:
+                base = rng.integers(2, 25, size=(n_per, nd)) / 8.0
+            flat = np.concatenate([base.flatten(), beta.flatten()])
+            th = vartheta(sub, n_ids, flat, cov)
+            if kind == 'Gc':
+                o = th[:, 0] + th[:, 1] * rng.normal(size=(n_ids, nd))
+            elif kind == 'Lc':
+                o = np.exp(th[:, 0] + th[:, 1] * rng.normal(size=(n_ids, nd))) + 0.2
+            elif kind == 'T':
+                o = np.abs(th[:, 0] + th[:, 1] * rng.normal(size=(n_ids, nd))) + 0.15
+            elif kind in ('Gn', 'Ln'):
+                o = rng.normal(size=(n_ids, nd))
+            elif kind == 'P':
+                o = th[:, 0].copy()
+            else:
+                o = np.array([th[i_, i_] for i_ in range(n_ids)])
+            if kind in ('P', 'H') and rng.random() < 0.15:
+                o[int(rng.integers(n_ids)), int(rng.integers(nd))] += 0.5
+                guard = 'guard'
+            subs.append(sub)
+            params.append(flat)
+            cols.append(o)
+            covs.append(cov)
+        else:
+            c = gen_elementary(rng, kind, nd, n_ids)
+            if c['guard'] != 'inside':
+                guard = 'guard'
+            subs.append([c['kind'], c['n_dim']])
+            params.append(np.asarray(c['theta']).flatten())
+            cols.append(c['obs'])
     obs = np.hstack(cols)
+    cov = np.hstack(covs) if covs else np.zeros((n_ids, 0))
     up = rng.normal(size=obs.shape) if rng.random() < 0.6 else None
-    return {'subs': subs, 'n_ids': n_ids, 'params': np.concatenate(params), 'obs': obs, 'up': up,
-            'guard': guard}
+    return {'subs': subs, 'n_ids': n_ids, 'params': np.concatenate(params), 'obs': obs, 'cov': cov,
+            'up': up, 'guard': guard}
 
 
 # ----------------------------------------------------------------------------------------
@@ -246,7 +335,7 @@ def chi_sens(m, P, obs, up):
 
 
 def model_sens(ctx, legacy, code, n_ids, n_dim, lk, P, obs, up):
-    out = ctx.model('C05.sens', legacy, code, n_ids, n_dim, *wire_layout(lk, P), obs.tolist(),
+    out = ctx.model('C05.sens', legacy, code, n_ids, n_dim, *wire_layout(lk, P), np.asarray(obs).tolist(),
                     None if up is None else np.asarray(up, float).tolist())
     if len(out) == 1:
         return out[0]
@@ -336,6 +425,36 @@ def run_elementary(ctx, chi, c):
                      {'chi': v['flat'], 'documented': doc})
     else:
         spec(ctx, 'C05.is_logpdf/' + cls, False, inp, {'chi': v['flat']})
+
+    # ---- compute_pointwise_ll: PooledModel implements it, every other class raises NotImplementedError
+    for lk in ('flat', 'matrix', 'tensor'):
+        P = L[lk]
+        pw = chi_call(lambda: np.asarray(m.compute_pointwise_ll(P, obs), float))
+        mo = ctx.model('C05.pointwise', code, n_ids, n_dim, *wire_layout(lk, P), obs.tolist())[0]
+        if is_err(pw):
+            ctx.errkinds.add(pw)
+        ctx.agree('C05.pointwise/' + lk, same(pw, mo), True, dict(inp, layout=lk))
+        if code == 'P' and lk != 'tensor':
+            okp = (not is_err(pw)) and pw.shape == obs.shape \
+                and bool(np.all(np.where(obs == TH[0], pw == 0.0, pw == -np.inf))) \
+                and (is_err(v['flat']) or same(float(np.sum(pw)), v['flat']))
+            spec(ctx, 'C05.pointwise/PooledModel', okp, dict(inp, layout=lk), {'pointwise': pw, 'll': v['flat']})
+    # ---- one-dimensional observations (one-dimensional models): read as a column
+    if n_dim == 1:
+        o1 = obs.flatten()
+        v1 = chi_call(lambda: float(m.compute_log_likelihood(L['flat'], o1)))
+        mo = ctx.model('C05.ll', True, code, n_ids, 1, *wire_layout('flat', L['flat']), o1.tolist())[0]
+        ctx.agree('C05.ll/obs-1d', same(v1, mo), True, dict(inp, obs_1d=True))
+        s1 = chi_sens(m, L['flat'], o1, up)
+        ctx.agree('C05.sens/obs-1d',
+                  sens_match(s1, model_sens(ctx, True, code, n_ids, 1, 'flat', L['flat'], o1, up)), True,
+                  dict(inp, obs_1d=True))
+        s2 = chi_sens(m, L['flat'], obs, up)
+        ok1 = same(v1, v['flat']) and (isinstance(s1, str) == isinstance(s2, str))
+        if ok1 and not isinstance(s1, str):
+            ok1 = core.close(s1['score'], s2['score']) and (not math.isfinite(s2['score']) or all(
+                core.close(s1[k_], s2[k_]) for k_ in ('reduce', 'dpsi', 'flat', 'sep')))
+        spec(ctx, 'C05.obs_1d/' + cls, ok1, dict(inp, obs_1d=True), {'vector': v1, 'column': v['flat']})
 
     # ---- compute_sensitivities
     S = {}
@@ -523,58 +642,76 @@ def run_tensor(ctx, chi, c):
 # composed models
 # ----------------------------------------------------------------------------------------
 def run_composed(ctx, chi, c):
-    subs = [[str(k), int(d)] for k, d in c['subs']]
+    subs = [list(norm_sub(x)) for x in c['subs']]
     n_ids = int(c['n_ids'])
     params = np.asarray(c['params'], float)
-    n_dim = sum(d for _, d in subs)
+    n_dim = sum(x[1] for x in subs)
+    n_cov = sum(x[2] for x in subs)
     obs = np.asarray(c['obs'], float).reshape(n_ids, n_dim)
+    cov = np.zeros((n_ids, 0)) if c.get('cov') is None else np.asarray(c['cov'], float).reshape(n_ids, n_cov)
     up = None if c.get('up') is None else np.asarray(c['up'], float).reshape(n_ids, n_dim)
     guard = c.get('guard', '?')
-    inp = {'subs': subs, 'n_ids': n_ids, 'params': params, 'obs': obs, 'up': up, 'guard': guard}
-    models = [make_model(chi, k, d, n_ids) for k, d in subs]
-    cm = chi.ComposedPopulationModel(models)
+    wsubs = [wire_sub(x) for x in subs]
+    inp = {'subs': wsubs, 'n_ids': n_ids, 'params': params, 'obs': obs, 'cov': cov, 'up': up,
+           'guard': guard}
+    kw = {'covariates': cov} if n_cov > 0 else {}
+    cm = chi.ComposedPopulationModel([make_sub(chi, x, n_ids) for x in subs])
     cm.set_n_ids(n_ids)
-    parts = [make_model(chi, k, d, n_ids) for k, d in subs]   # fresh, evaluated separately
-    key = '+'.join(k for k, _ in subs)
-    ctx.case('composed/n%d/%s' % (len(subs), guard),
-             nontrivial=('composed/%s/%s/ni%d/%s' % (key, '.'.join(str(d) for _, d in subs), n_ids, guard))
+    parts = [make_sub(chi, x, n_ids) for x in subs]   # fresh, evaluated separately
+    key = '+'.join(x[0] + ('~%d' % x[2] if x[2] else '') for x in subs)
+    ctx.case('composed/n%d/%s/%s' % (len(subs), 'cov' if n_cov else 'plain', guard),
+             nontrivial=('composed/%s/%s/ni%d/%s' % (key, '.'.join(str(x[1]) for x in subs), n_ids, guard))
              if len(subs) >= 2 else False, sample=inp)
-    mo = ctx.model('C05.composed', n_ids, subs, params.tolist(), obs.tolist(),
+    mo = ctx.model('C05.composed', n_ids, wsubs, params.tolist(), obs.tolist(), cov.tolist(),
                    None if up is None else up.tolist())
     if len(mo) == 1:
         ctx.agree('C05.composed/params-length', 'ok', mo[0], inp)
         return
-    (m_ll, m_spec, m_s, m_def, m_dpsi, m_dth, r_s, r_def, r_vec, m_nb, m_nt, m_np, m_nd) = mo
+    (m_ll, m_spec, m_s, m_def, m_dpsi, m_dth, r_s, r_def, r_vec, m_nb, m_nt, m_np, m_nd, m_nc) = mo
     # counts
     nb, nt = cm.n_hierarchical_parameters(n_ids)
-    ctx.agree('C05.composed/counts', [nb, nt, cm.n_parameters(), cm.n_dim()], [m_nb, m_nt, m_np, m_nd], inp)
+    ctx.agree('C05.composed/counts', [nb, nt, cm.n_parameters(), cm.n_dim(), cm.n_covariates()],
+              [m_nb, m_nt, m_np, m_nd, m_nc], inp)
     spec(ctx, 'C05.additive/counts',
-             (nb, nt) == tuple(np.sum([p.n_hierarchical_parameters(n_ids) for p in parts], axis=0))
-             and cm.n_parameters() == sum(p.n_parameters() for p in parts), inp)
+         (nb, nt) == tuple(np.sum([p.n_hierarchical_parameters(n_ids) for p in parts], axis=0))
+         and cm.n_parameters() == sum(p.n_parameters() for p in parts)
+         and cm.n_covariates() == sum(p.n_covariates() for p in parts), inp)
     # value
-    v = chi_call(lambda: float(cm.compute_log_likelihood(params, obs)))
+    v = chi_call(lambda: float(cm.compute_log_likelihood(params, obs, **kw)))
     ctx.agree('C05.composed/ll', same(v, m_ll), True, inp)
     ctx.agree('C05.composed/ll-spec', same(v, m_spec), True, inp)
-    pv, pos_p, pos_d = [], 0, 0
+    pv, pos_p, pos_d, pos_c = [], 0, 0, 0
     offs = []
-    for (k, d), p in zip(subs, parts):
+    for x, p in zip(subs, parts):
         n_p = p.n_parameters()
-        offs.append((pos_p, n_p, pos_d, d))
+        pkw = {'covariates': cov[:, pos_c:pos_c + x[2]]} if x[2] else {}
+        offs.append((pos_p, n_p, pos_d, x[1], pkw))
         pv.append(chi_call(lambda: float(p.compute_log_likelihood(
-            params[pos_p:pos_p + n_p], obs[:, pos_d:pos_d + d]))))
+            params[pos_p:pos_p + n_p], obs[:, pos_d:pos_d + x[1]], **pkw))))
         pos_p += n_p
-        pos_d += d
-    total = sum(pv) if not any(is_err(x) for x in pv) else 'err'
+        pos_d += x[1]
+        pos_c += x[2]
+    total = sum(pv) if not any(is_err(y) for y in pv) else 'err'
     spec(ctx, 'C05.additive/value', same(v, total), inp, {'composed': v, 'parts': pv})
+    # a covariate-wrapped part = the documented density with each individual's own parameters
+    for x, (pp, n_p, pd, d, pkw), val in zip(subs, offs, pv):
+        if x[2] and not is_err(val):
+            th = vartheta(x, n_ids, params[pp:pp + n_p], pkw['covariates'])
+            if x[0] not in HIER or bool(np.all(th[:, 1] > 0)):
+                doc = documented_logpdf(x[0], th, obs[:, pd:pd + d])
+                spec(ctx, 'C05.is_logpdf/covariate/' + CLASSNAME[x[0]], same(val, doc), inp,
+                     {'part': wire_sub(x), 'chi': val, 'documented': doc})
+
     # separate form
     def sep():
         u = None if up is None else up.copy()
-        s, dp, dt = cm.compute_sensitivities(params, obs, dlogp_dpsi=u)
+        s, dp, dt = cm.compute_sensitivities(params, obs, dlogp_dpsi=u, **kw)
         return float(s), np.asarray(dp, float), np.asarray(dt, float)
     cs = chi_call(sep)
+
     def red():
         u = None if up is None else up.copy()
-        s, ds = cm.compute_sensitivities(params, obs, dlogp_dpsi=u, reduce=True)
+        s, ds = cm.compute_sensitivities(params, obs, dlogp_dpsi=u, reduce=True, **kw)
         return float(s), np.asarray(ds, float)
     cr = chi_call(red)
     if isinstance(cs, str) or isinstance(cr, str):
@@ -590,36 +727,41 @@ def run_composed(ctx, chi, c):
         ok = core.close(cr[1], r_vec)
     ctx.agree('C05.composed/reduced', ok, True, inp)
     spec(ctx, 'C05.additive/len', len(cr[1]) == nb + nt and len(cs[2]) == cm.n_parameters(), inp,
-             {'reduced': len(cr[1]), 'n_hier': [nb, nt], 'dtheta': len(cs[2])})
+         {'reduced': len(cr[1]), 'n_hier': [nb, nt], 'dtheta': len(cs[2])})
     # (a non-centred part with a negative scale is outside the support: its value path ignores the
     #  parameters while its sensitivity path returns -inf; nothing is claimed there)
-    nc_neg = any(k in ('Gn', 'Ln') and np.any(params[pp + d:pp + 2 * d] < 0)
-                 for (k, d), (pp, _, _, _) in zip(subs, offs))
+    nc_neg = False
+    for x, (pp, n_p, pd, d, pkw) in zip(subs, offs):
+        if x[0] in ('Gn', 'Ln'):
+            sg = vartheta(x, n_ids, params[pp:pp + n_p], pkw['covariates'])[:, 1] if x[2] \
+                else params[pp + d:pp + 2 * d]
+            nc_neg = nc_neg or bool(np.any(sg < 0))
     if not nc_neg:
         spec(ctx, 'C05.additive/sens_score', same(cs[0], v) and same(cr[0], v), inp)
     if not math.isfinite(cs[0]):
         return
     # sum of parts, each on its own block
     dp_parts, dt_parts, bottoms, tops = [], [], [], []
-    for (k, d), p, (pp, n_p, pd, _) in zip(subs, parts, offs):
+    for x, p, (pp, n_p, pd, d, pkw) in zip(subs, parts, offs):
         u = None if up is None else up[:, pd:pd + d].copy()
-        s, dp, dt = p.compute_sensitivities(params[pp:pp + n_p], obs[:, pd:pd + d], dlogp_dpsi=u)
+        s_, dp, dt = p.compute_sensitivities(params[pp:pp + n_p], obs[:, pd:pd + d], dlogp_dpsi=u, **pkw)
         dp_parts.append(dp)
         dt_parts.append(dt)
         u = None if up is None else up[:, pd:pd + d].copy()
-        s, ds = p.compute_sensitivities(params[pp:pp + n_p], obs[:, pd:pd + d], dlogp_dpsi=u, reduce=True)
+        s_, ds = p.compute_sensitivities(params[pp:pp + n_p], obs[:, pd:pd + d], dlogp_dpsi=u,
+                                         reduce=True, **pkw)
         b, _t = p.n_hierarchical_parameters(n_ids)
         if b > 0:
             bottoms.append(ds[:b].reshape(n_ids, d))
         tops.append(ds[b:])
     spec(ctx, 'C05.additive/sens', core.close(cs[1], np.hstack(dp_parts))
-             and core.close(cs[2], np.concatenate(dt_parts)), inp)
+         and core.close(cs[2], np.concatenate(dt_parts)), inp)
     want = np.concatenate(([np.hstack(bottoms).flatten()] if bottoms else []) + tops)
     spec(ctx, 'C05.additive/reduced', core.close(cr[1], want), inp, {'chi': cr[1], 'parts': want})
     # finite differences of the composed value in hierarchical coordinates
     if guard != 'inside':
         return
-    hcols = [j for (k, d), (_, _, pd, _) in zip(subs, offs) if k in HIER for j in range(pd, pd + d)]
+    hcols = [j_ for x, (_, _, pd, d, _) in zip(subs, offs) if x[0] in HIER for j_ in range(pd, pd + d)]
     upm = np.zeros((n_ids, n_dim)) if up is None else up
     z0 = np.concatenate([obs[:, hcols].flatten(), params])
     if len(z0) != len(cr[1]):
@@ -630,14 +772,14 @@ def run_composed(ctx, chi, c):
         eta[:, hcols] = z[:nb].reshape(n_ids, len(hcols))
         top = z[nb:]
         with np.errstate(all='ignore'):
-            full = cm.compute_individual_parameters(top, eta, return_eta=True)
-            psi = cm.compute_individual_parameters(top, full)
-            return float(cm.compute_log_likelihood(top, full)) + float(np.sum(upm * psi))
+            full = cm.compute_individual_parameters(top, eta, return_eta=True, **kw)
+            psi = cm.compute_individual_parameters(top, full, **kw)
+            return float(cm.compute_log_likelihood(top, full, **kw)) + float(np.sum(upm * psi))
     r = ctx.sub_rng(991 + len(z0))
     for k in sorted(r.choice(len(z0), size=min(8, len(z0)), replace=False).tolist()):
         ok, est = oracle.grad_matches(F, z0, k, float(cr[1][k]))
-        spec(ctx, 'C05.grad/composed/' + ('bottom' if k < nb else 'top'), ok, inp,
-                 {'k': k, 'analytic': float(cr[1][k]), 'fd': est})
+        spec(ctx, 'C05.grad/composed/%s/%s' % ('cov' if n_cov else 'plain', 'bottom' if k < nb else 'top'),
+             ok, inp, {'k': k, 'analytic': float(cr[1][k]), 'fd': est})
 
 
 # ----------------------------------------------------------------------------------------
@@ -721,28 +863,52 @@ def odd_shapes(ctx, chi):
             ctx.agree('C05.odd-shape/' + k_, v_, True, inp)
 
 
+GUARDS = {'Gc': ['sigma=0', 'sigma<0'], 'Gn': ['sigma=0', 'sigma<0'], 'Lc': ['sigma=0', 'sigma<0', 'psi<=0'],
+          'Ln': ['sigma=0', 'sigma<0'], 'T': ['sigma=0', 'sigma<0', 'psi<=0'], 'P': ['mismatch'],
+          'H': ['mismatch']}
+
+
 def run(ctx):
     chi = core.import_chi()
     quick = ctx.tier == 'quick'
     for c in corpus():
-        run_elementary(ctx, chi, c)
-    odd_shapes(ctx, chi)
-    n_el, n_te, n_co = (630, 140, 220) if quick else (12000, 2500, 4000)
+        ctx.guard(run_elementary, ctx, chi, c)
+    ctx.guard(odd_shapes, ctx, chi)
+    n_el, n_te, n_co = (560, 140, 230) if quick else (24000, 6000, 10000)
     for i in range(n_el):
         rng = ctx.sub_rng(i)
         code = KCODES[i % len(KCODES)] if i < 10 * len(KCODES) else None
-        run_elementary(ctx, chi, gen_elementary(rng, code))
+        ctx.guard(run_elementary, ctx, chi, gen_elementary(rng, code))
+    # thin classes of the free stream get their own: every guard class of every model, the largest
+    # dimension / individual counts, one-dimensional models (1-D observations)
+    rep = 2 if quick else 60
+    k = 0
+    for code in KCODES:
+        for g in GUARDS[code]:
+            for _ in range(rep):
+                k += 1
+                ctx.guard(run_elementary, ctx, chi, gen_elementary(ctx.sub_rng(4 * 10 ** 6 + k), code, force=g))
+        for nd, ni in ((4, 6), (4, 1), (1, 6), (1, 1), (3, 5)):
+            for _ in range(1 if quick else 30):
+                k += 1
+                ctx.guard(run_elementary, ctx, chi,
+                          gen_elementary(ctx.sub_rng(4 * 10 ** 6 + k), code, nd, ni, force='inside'))
     for i in range(n_te):
-        run_tensor(ctx, chi, gen_tensor(ctx.sub_rng(10 ** 6 + i)))
+        ctx.guard(run_tensor, ctx, chi, gen_tensor(ctx.sub_rng(10 ** 6 + i)))
     for i in range(n_co):
-        run_composed(ctx, chi, gen_composed(ctx.sub_rng(2 * 10 ** 6 + i)))
+        ctx.guard(run_composed, ctx, chi, gen_composed(ctx.sub_rng(2 * 10 ** 6 + i)))
+    for i in range(6 if quick else 300):        # long compositions
+        ctx.guard(run_composed, ctx, chi,
+                  gen_composed(ctx.sub_rng(5 * 10 ** 6 + i), n_sub=5 + i % 3, with_cov=bool(i % 2)))
     if not quick:
-        # exhaustive small compositions: every ordered pair / triple of kinds with dims 1-2
+        # exhaustive small compositions: every ordered pair of kinds with dims 1-2, every triple with dim 1
         rng = ctx.sub_rng(3 * 10 ** 6)
         import itertools
         for ks in itertools.product(KCODES, repeat=2):
             for ds in itertools.product([1, 2], repeat=2):
-                run_composed(ctx, chi, fixed_composition(rng, ks, ds, int(rng.integers(1, 4))))
+                ctx.guard(run_composed, ctx, chi, fixed_composition(rng, ks, ds, int(rng.integers(1, 4))))
+        for ks in itertools.product(KCODES, repeat=3):
+            ctx.guard(run_composed, ctx, chi, fixed_composition(rng, ks, (1, 1, 1), int(rng.integers(1, 4))))
     ctx.extra['model_variants_matched'] = sorted(b for b in ctx.branches if b.startswith('variant:'))
 
 
